@@ -1046,13 +1046,10 @@ def _long_strategy():
 
 def shard(ctx):
     STATS.clear()
-    # the cheap campaigns first (a few CPU seconds together), the exhaustive enumeration - most of the cost - last:
-    # on an overloaded machine the wall-clock cap then cuts the tail of the enumeration, not whole campaigns
+    # the small campaigns first (a few CPU seconds together), then the exhaustive enumeration and the two larger
+    # Hypothesis campaigns: on an overloaded machine the wall-clock cap then cuts a tail, not whole campaigns
     ctx.sweep("remode", remode_sweep(), nontrivial=lambda c: True, classify=lambda c: ["remode:sweep"],
               exhaustive_name="every wrap/align transition through each setter on a long-lived Text")
-    if ctx.failure is None:
-        ctx.given("remode", _remode_strategy(), ctx.scale(300, 6000), nontrivial=lambda c: len(c["steps"]) >= 2,
-                  classify=lambda c: ["remode:" + s[0] for s in c["steps"]])
     if ctx.failure is None:
         ctx.sweep("switch", switch_sweep(), nontrivial=switch_nontrivial, classify=switch_classify,
                   exhaustive_name="every chain of three encodings (utf-8, euc-jp, iso8859-1, gbk, ascii; neighbours differ) x "
@@ -1061,8 +1058,6 @@ def shard(ctx):
         ctx.given("switch", _switch_strategy(), ctx.scale(250, 5000), nontrivial=switch_nontrivial, classify=switch_classify)
     if ctx.failure is None:
         ctx.given("big", _big_strategy(), ctx.scale(400, 6000), nontrivial=big_nontrivial, classify=big_classify)
-    if ctx.failure is None:
-        ctx.given("long", _long_strategy(), ctx.scale(1500, 30000), nontrivial=is_nontrivial, classify=classify)
     widths = range(1, 9)
     maxlen = ctx.scale(5, 6)
     if ctx.failure is None:
@@ -1073,6 +1068,11 @@ def shard(ctx):
         ctx.sweep("short", short_cases(ctx, ("utf-8",), 7, range(1, 5), kinds=(False,), minlen=7),
                   nontrivial=is_nontrivial, classify=classify,
                   exhaustive_name="utf-8 str strings of length 7 x width 1..4 x wrap x align", stride=False)
+    if ctx.failure is None:
+        ctx.given("long", _long_strategy(), ctx.scale(1500, 30000), nontrivial=is_nontrivial, classify=classify)
+    if ctx.failure is None:
+        ctx.given("remode", _remode_strategy(), ctx.scale(300, 6000), nontrivial=lambda c: len(c["steps"]) >= 2,
+                  classify=lambda c: ["remode:" + s[0] for s in c["steps"]])
     for k, v in sorted(STATS.items()):
         ctx.count(k, v)
 
